@@ -167,3 +167,38 @@ func VerifConcurrentInsertsSameId() {
 	found, _, rerr := readDoc(s, id)
 	vassert("id-readable", rerr == nil && found)
 }
+
+// two concurrent graph searches with DIFFERENT reach on a cold shared cache: one visits only the
+// entry node, the other walks on to further nodes and therefore still has to read from storage
+// after the first one has finished
+func VerifConcurrentSearchesDifferentReach() {
+	s, st := verifShard(graphSchema())
+	a, b := nondetUUID(), nondetUUID()
+	vassume(a != b)
+	vassume(s.InsertPoints([]models.Point{{Id: a, Data: vdoc(vecDoc(0, 1, 1))}}) == nil)
+	vassume(s.InsertPoints([]models.Point{{Id: b, Data: vdoc(vecDoc(1, 3, 3))}}) == nil)
+	s.cacheManager = cache.NewManager(-1) // cold
+	st.yieldOnOps = true
+	st.strict = true
+	st.useAfterEnd = 0
+	vsched(vparam("DELAYS", 1))
+	var wg sync.WaitGroup
+	var errFar, errNear error
+	var nFar int
+	wg.Add(2)
+	go func() { // walks to the far point
+		defer wg.Done()
+		res, err := s.SearchPoints(models.SearchRequest{Query: models.Query{Property: "vec", VectorVamana: &models.SearchVectorVamanaOptions{Vector: []float32{3, 3}, Operator: models.OperatorNear, SearchSize: 3, Limit: 3}}, Limit: 10})
+		errFar, nFar = err, len(res)
+	}()
+	go func() { // stays at the entry node
+		defer wg.Done()
+		_, err := s.SearchPoints(models.SearchRequest{Query: models.Query{Property: "vec", VectorVamana: &models.SearchVectorVamanaOptions{Vector: []float32{0.7, 0.7}, Operator: models.OperatorNear, SearchSize: 1, Limit: 1}}, Limit: 10})
+		errNear = err
+	}()
+	wg.Wait()
+	vcover("reached")
+	vassert("searches-do-not-fail", errFar == nil && errNear == nil)
+	vassert("walking-search-finds-both-points", errFar != nil || nFar == 2)
+	vassert("no-storage-handle-used-after-its-transaction-ended", st.useAfterEnd == 0)
+}
